@@ -729,14 +729,19 @@ OnnxConvTranspose(x, w, bias, strides, dil, group, pads, opad) ==
   IN FromFn(<<x.shape[1], mg * group>> \o os, x.dtype, F)
 
 \* MaxPool / AveragePool(X, kernel_shape, strides, pads, dilations, auto_pad,
-\* ceil_mode, count_include_pad).  With ceil_mode=1 only windows that start
-\* inside the input or the begin padding are defined the same way by every
-\* version of the documentation: cases where the ceil formula adds a window
-\* starting in the end padding are left undefined.  A window must contain at
-\* least one input element.  AveragePool is exact only where the window sum is
-\* divisible by the divisor.
+\* ceil_mode, count_include_pad).  Output extent per axis (ONNX text):
+\*   floor_or_ceil((in + pad_begin + pad_end - ((k-1)*d + 1)) / stride) + 1
+\* and, with ceil_mode = 1, "sliding windows that would start in the right
+\* padded region are ignored": the last window must start inside the input or
+\* the begin padding, i.e. (out-1)*stride < in + pad_begin, otherwise it is
+\* dropped.  A window must contain at least one input element.  AveragePool is
+\* exact only where the window sum is divisible by the divisor.
+PoolOutDims(ins, ks, strides, dil, pd, ceil) ==
+  LET base == ConvOutDims(ins, ks, strides, dil, pd, ceil)
+  IN [i \in 1..Len(ins) |->
+        IF ceil /\ (base[i] - 1) * strides[i] >= ins[i] + pd.b[i] THEN base[i] - 1 ELSE base[i]]
 PoolOut(x, ks, strides, dil, pads, auto, ceil) ==
-  LET ins == Drop(x.shape, 2) IN ConvOutDims(ins, ks, strides, dil, ConvPads(auto, ins, ks, strides, dil, pads), ceil)
+  LET ins == Drop(x.shape, 2) IN PoolOutDims(ins, ks, strides, dil, ConvPads(auto, ins, ks, strides, dil, pads), ceil)
 \* input positions covered by the window of output position o
 PoolWindow(ins, ks, strides, dil, pb, o) ==
   LET RECURSIVE W(_)
@@ -748,8 +753,8 @@ DefPool(x, ks, strides, dil, pads, auto, ceil) ==
   LET ins == Drop(x.shape, 2) n == Len(ins) IN
   /\ Rank(x) >= 3 /\ DefWindow(ins, ks, strides, dil, pads, auto)
   /\ LET pd == ConvPads(auto, ins, ks, strides, dil, pads)
-         os == ConvOutDims(ins, ks, strides, dil, pd, ceil) IN
-     /\ ceil => \A i \in 1..n : (os[i] - 1) * strides[i] < ins[i] + pd.b[i]
+         os == PoolOutDims(ins, ks, strides, dil, pd, ceil) IN
+     /\ \A i \in 1..n : os[i] >= 1
      /\ \A i \in 1..n : pd.b[i] < (ks[i] - 1) * dil[i] + 1 /\ pd.e[i] < (ks[i] - 1) * dil[i] + 1
      /\ \A k \in 1..Prod(os) : PoolWindow(ins, ks, strides, dil, pd.b, Unravel(k - 1, os)) # <<>>
 PoolGeneric(x, ks, strides, dil, pads, auto, ceil, Agg(_, _)) ==
@@ -764,7 +769,7 @@ PoolGeneric(x, ks, strides, dil, pads, auto, ceil, Agg(_, _)) ==
                                 LET pos == WinPos(o, Unravel(j, ks), strides, dil, pb)
                                 IN \A i \in 1..Len(pos) : pos[i] >= -pb[i] /\ pos[i] < ins[i] + pe[i]})
                 IN Agg(vals, padded)
-  IN FromFn(<<x.shape[1], x.shape[2]>> \o ConvOutDims(ins, ks, strides, dil, pd, ceil), x.dtype, F)
+  IN FromFn(<<x.shape[1], x.shape[2]>> \o PoolOutDims(ins, ks, strides, dil, pd, ceil), x.dtype, F)
 SeqMax(v) == LET G(acc, j) == MaxI(acc, v[j + 2]) IN FoldN(G, Len(v) - 1, v[1])
 OnnxMaxPool(x, ks, strides, dil, pads, auto, ceil) ==
   PoolGeneric(x, ks, strides, dil, pads, auto, ceil, LAMBDA vals, padded : SeqMax(vals))
@@ -777,7 +782,7 @@ DefAveragePool(x, ks, strides, dil, pads, auto, ceil, cip) ==
   /\ (cip /\ ceil) =>
        LET ins == Drop(x.shape, 2)
            pd == ConvPads(auto, ins, ks, strides, dil, pads)
-           os == ConvOutDims(ins, ks, strides, dil, pd, ceil)
+           os == PoolOutDims(ins, ks, strides, dil, pd, ceil)
        IN \A i \in 1..Len(ins) : (os[i] - 1) * strides[i] + (ks[i] - 1) * dil[i] + 1 <= ins[i] + pd.b[i] + pd.e[i]
   /\ LET t == PoolGeneric(x, ks, strides, dil, pads, auto, ceil,
                           LAMBDA vals, padded : SeqSum(vals) % AvgDivisor(vals, padded, cip))
@@ -892,16 +897,37 @@ OnnxDequantizeLinear(x, sc, zp, axis) ==
 RoundHalfEven(p, q) ==       \* q > 0
   LET f == FloorDiv(p, q) rem2 == 2 * (p - f * q)
   IN IF rem2 < q THEN f ELSE IF rem2 > q THEN f + 1 ELSE IF f % 2 = 0 THEN f ELSE f + 1
+\* `den` is the common denominator of the logged x (x = x.data / den), so that
+\* exact ties x / scale = k + 1/2 can be expressed; ties go to the EVEN integer
+\* BEFORE the zero point is added.
 DefQuantizeLinear(x, sc, zp, axis) ==
   /\ x.dtype = "f32" /\ sc.dtype = "f32" /\ DefQParam(sc, x, axis)
   /\ \A k \in 1..Len(sc.data) : sc.data[k] >= 1
   /\ IsT(zp) => (zp.dtype \in {"u8", "i8"} /\ zp.shape = sc.shape)
-OnnxQuantizeLinear(x, sc, zp, axis) ==
+OnnxQuantizeLinearD(x, den, sc, zp, axis) ==
   LET dt == IF IsT(zp) THEN zp.dtype ELSE "u8"
       lo == IF dt = "u8" THEN 0 ELSE -128
       hi == IF dt = "u8" THEN 255 ELSE 127
-      F(idx) == Clamp(RoundHalfEven(At(x, idx), QParam(sc, x, axis, idx)) + (IF IsT(zp) THEN QParam(zp, x, axis, idx) ELSE 0), lo, hi)
+      F(idx) == Clamp(RoundHalfEven(At(x, idx), den * QParam(sc, x, axis, idx)) + (IF IsT(zp) THEN QParam(zp, x, axis, idx) ELSE 0), lo, hi)
   IN FromFn(x.shape, dt, F)
+OnnxQuantizeLinear(x, sc, zp, axis) == OnnxQuantizeLinearD(x, 1, sc, zp, axis)
+\* DynamicQuantizeLinear(x) -> (y: uint8, y_scale, y_zero_point), x = x.data / den:
+\*   range [lo, hi] = [min(0, min x), max(0, max x)],  y_scale = (hi - lo) / 255,
+\*   y_zero_point = round_half_even(saturate(0 - lo / y_scale)),
+\*   y = saturate(round_half_even(x / y_scale) + y_zero_point).
+\* Exact (and judged) only where y_scale is a power of two.  y_scale is
+\* returned as the rational [n, d].
+DQLo(x) == LET G(acc, j) == MinI(acc, x.data[j + 1]) IN FoldN(G, Len(x.data), 0)
+DQHi(x) == LET G(acc, j) == MaxI(acc, x.data[j + 1]) IN FoldN(G, Len(x.data), 0)
+DefDynamicQuantizeLinear(x, den) ==
+  /\ x.dtype = "f32" /\ den >= 1 /\ Len(x.data) >= 1
+  /\ DQHi(x) - DQLo(x) > 0
+  /\ IsPow2Ratio(DQHi(x) - DQLo(x), 255 * den)
+OnnxDynamicQuantizeLinear(x, den) ==
+  LET lo == DQLo(x) sn == DQHi(x) - lo sd == 255 * den
+      zp == Clamp(RoundHalfEven((-lo) * sd, den * sn), 0, 255)
+      y == MapT(LAMBDA v : Clamp(RoundHalfEven(v * sd, den * sn) + zp, 0, 255), x, "u8")
+  IN [y |-> y, scale |-> [n |-> sn, d |-> sd], zp |-> Scalar("u8", zp)]
 
 ---------------------------------------------------------------------------
 (* Sequence operators.  A sequence is a TLA+ sequence of tensors of one      *)
@@ -963,7 +989,12 @@ OnnxEval(op, attrs, ins) ==
       IsList(k) == Has(k) /\ Len(ins[k].shape) = 1 /\ ins[k].dtype = "i32"
       Scal(k) == ins[k].data[1]
       IsScal(k) == Has(k) /\ Len(ins[k].data) = 1
+      \* common denominator of a logged input (1 unless the harness logs fractions)
+      Den(k) == IF "den" \in DOMAIN ins[k] THEN ins[k].den ELSE 1
+      Fractional == \E k \in 1..N : ins[k].p /\ Den(k) # 1
   IN
+  \* only the operators below understand fractional inputs
+  IF Fractional /\ op \notin {"Resize", "Round", "Floor", "Ceil", "Cast", "QuantizeLinear", "DynamicQuantizeLinear"} THEN Undefined ELSE
   CASE op \in {"Add", "Sub", "Mul"} ->
          IF ~Need(2) THEN Undefined ELSE
          G(DefBinary(T(1), T(2)),
@@ -999,7 +1030,12 @@ OnnxEval(op, attrs, ins) ==
     [] op = "Where" -> IF ~Need(3) THEN Undefined ELSE G(DefWhere(T(1), T(2), T(3)), OnnxWhere(T(1), T(2), T(3)))
     [] op = "Cast" -> IF ~Need(1) \/ ~AHas(attrs, "to") THEN Undefined ELSE
          IF CastTarget(A("to", 0)) = "none" THEN Unmodelled
-         ELSE G(DefCast(T(1), A("to", 0)), OnnxCast(T(1), A("to", 0)))
+         ELSE IF Den(1) = 1 THEN G(DefCast(T(1), A("to", 0)), OnnxCast(T(1), A("to", 0)))
+         \* fractional float input x = data / den: float -> integer truncates toward zero,
+         \* float -> bool is x # 0; float -> float would not be an integer: not judged
+         ELSE IF T(1).dtype # "f32" \/ Den(1) < 1 \/ CastTarget(A("to", 0)) = "f32" THEN Undefined
+         ELSE LET tr == MapT(LAMBDA v : TruncDiv(v, Den(1)), T(1), "f32") IN
+              IF A("to", 0) = 9 THEN G(TRUE, OnnxCast(T(1), 9)) ELSE G(DefCast(tr, A("to", 0)), OnnxCast(tr, A("to", 0)))
     [] op = "Shape" -> IF ~Need(1) THEN Undefined ELSE
          G(TRUE, OnnxShape(T(1), A("start", 0), A("end", Rank(T(1)))))
     [] op = "Size" -> IF ~Need(1) THEN Undefined ELSE G(TRUE, OnnxSize(T(1)))
@@ -1150,7 +1186,11 @@ OnnxEval(op, attrs, ins) ==
          G(\A k \in 1..Len(T(1).data) : InRange(T(2).dtype, T(1).data[k]), WithDType(T(1), T(2).dtype))
     [] op = "Scatter" -> IF ~Need(3) THEN Undefined ELSE
          G(DefScatterElements(T(1), T(2), T(3), A("axis", 0), "none"), OnnxScatterElements(T(1), T(2), T(3), A("axis", 0), "none"))
-    [] op \in {"Ceil", "Floor", "Round"} -> IF ~Need(1) THEN Undefined ELSE G(T(1).dtype = "f32", T(1))   \* integers are fixed points
+    [] op \in {"Ceil", "Floor", "Round"} -> IF ~Need(1) \/ Den(1) < 1 THEN Undefined ELSE
+         \* x = data / den; Round is round-half-to-even
+         G(T(1).dtype = "f32",
+           MapT(LAMBDA v : CASE op = "Ceil" -> CeilDiv(v, Den(1)) [] op = "Floor" -> FloorDiv(v, Den(1))
+                             [] op = "Round" -> RoundHalfEven(v, Den(1)), T(1), "f32"))
     [] op \in {"IsInf", "IsNaN"} -> IF ~Need(1) THEN Undefined ELSE
          G(T(1).dtype = "f32", MapT(LAMBDA v : 0, T(1), "i32"))                   \* logged values are finite
     [] op = "PRelu" -> IF ~Need(2) THEN Undefined ELSE G(DefPRelu(T(1), T(2)), OnnxPRelu(T(1), T(2)))
@@ -1162,7 +1202,14 @@ OnnxEval(op, attrs, ins) ==
     [] op = "DequantizeLinear" -> IF ~Need(2) THEN Undefined ELSE
          G(DefDequantizeLinear(T(1), T(2), TOpt(3), A("axis", 1)), OnnxDequantizeLinear(T(1), T(2), TOpt(3), A("axis", 1)))
     [] op = "QuantizeLinear" -> IF ~Need(2) THEN Undefined ELSE
-         G(DefQuantizeLinear(T(1), T(2), TOpt(3), A("axis", 1)), OnnxQuantizeLinear(T(1), T(2), TOpt(3), A("axis", 1)))
+         G(DefQuantizeLinear(T(1), T(2), TOpt(3), A("axis", 1)) /\ Den(1) >= 1 /\ Den(2) = 1,
+           OnnxQuantizeLinearD(T(1), Den(1), T(2), TOpt(3), A("axis", 1)))
+    [] op = "DynamicQuantizeLinear" -> IF ~Need(1) \/ ~DefDynamicQuantizeLinear(T(1), Den(1)) THEN Undefined ELSE
+         LET q == OnnxDynamicQuantizeLinear(T(1), Den(1)) IN
+         \* y_scale can be logged only when it is an integer; the harness states how many
+         \* outputs it requested (_nout) and requests y alone otherwise
+         IF q.scale.n % q.scale.d = 0 THEN Ok(<<q.y, Scalar("f32", q.scale.n \div q.scale.d), q.zp>>)
+         ELSE IF A("_nout", 3) = 1 THEN Ok(<<q.y>>) ELSE Undefined
     [] op = "Einsum" ->
          \* the harness logs the parsed equation as pseudo-attributes _terms / _out / _implicit
          IF N = 0 \/ ~AllPresent \/ ~AHas(attrs, "_terms") THEN Unmodelled ELSE
